@@ -19,7 +19,16 @@ MASTER = 'treadmill.scheduler.master'
 def calls(node_or_ast):
     if isinstance(node_or_ast, C.Node):
         return C.node_calls(node_or_ast)
-    return [s for s in ast.walk(node_or_ast) if isinstance(s, ast.Call)]
+    out = []
+    stack = [node_or_ast]
+    while stack:
+        cur = stack.pop()
+        if isinstance(cur, ast.Call):
+            out.append(cur)
+        stack.extend(ast.iter_child_nodes(cur))
+        # the body of a helper spliced in at a condition
+        stack.extend(getattr(cur, '_inline_body', None) or ())
+    return out
 
 
 def is_meth(call, *names):
